@@ -189,3 +189,26 @@ Print Assumptions int_eq_iff.
 Print Assumptions int_lt_iff.
 Print Assumptions int_le_iff.
 Print Assumptions numbers_ordered.
+
+(* ---------- the carrier kind of a float, and of either operand of a mixed comparison, is irrelevant ---------- *)
+(* (a float32 datum is carried by the float64 bit pattern of the same real number: the conversion is exact) *)
+Theorem float_compare_kind_independent : forall f1 f2 f1' f2' b1 b2 op,
+  rel_op op (VFloat f1 b1) (VFloat f2 b2) = rel_op op (VFloat f1' b1) (VFloat f2' b2).
+Proof.
+  intros f1 f2 f1' f2' b1 b2 op.
+  assert (H : forall g1 g2, num_compare (VFloat g1 b1) (VFloat g2 b2) = Some (f_cmp b1 b2)) by reflexivity.
+  rewrite (rel_ord_num op _ _ _ (H f1 f2)), (rel_ord_num op _ _ _ (H f1' f2')). reflexivity.
+Qed.
+Theorem mixed_compare_kind_independent : forall k k' f f' z b op,
+  rel_op op (VInt k z) (VFloat f b) = rel_op op (VInt k' z) (VFloat f' b) /\
+  rel_op op (VFloat f b) (VInt k z) = rel_op op (VFloat f' b) (VInt k' z).
+Proof.
+  intros k k' f f' z b op.
+  assert (H1 : forall kk ff, num_compare (VInt kk z) (VFloat ff b) = Some (f_cmp (f_of_Z (wrap64 z)) b)) by reflexivity.
+  assert (H2 : forall kk ff, num_compare (VFloat ff b) (VInt kk z) = Some (f_cmp b (f_of_Z (wrap64 z)))) by reflexivity.
+  split.
+  - rewrite (rel_ord_num op _ _ _ (H1 k f)), (rel_ord_num op _ _ _ (H1 k' f')). reflexivity.
+  - rewrite (rel_ord_num op _ _ _ (H2 k f)), (rel_ord_num op _ _ _ (H2 k' f')). reflexivity.
+Qed.
+Print Assumptions float_compare_kind_independent.
+Print Assumptions mixed_compare_kind_independent.
